@@ -2,6 +2,7 @@
    that has not fired and has counted every registered handler, and the partition is marked dropped from then on *)
 From Coq Require Import List String NArith ZArith Bool Arith Lia.
 From Verif Require Import Base.Util Reader.Model Reader.Proofs C04.Proofs.
+From Verif Require Import Reader.Forget.
 From Verif Require C16.Model C16.Manager.
 Import ListNotations.
 
@@ -224,9 +225,15 @@ Proof.
   pose proof (find_none _ _ F x Hx) as K. unfold pbar_key_eqb in K. rewrite E in K. cbn in K. rewrite !Z.eqb_refl in K. discriminate.
 Qed.
 
+Lemma forget_pview l b x : pview (forget_fired l b x) = pview x.
+Proof.
+  pose proof (forget_fired_frame l b x) as F. unfold same_but_heap in F. unfold pview, pkeys.
+  repeat match goal with H : _ /\ _ |- _ => destruct H end. congruence.
+Qed.
+
 Lemma step_PI retries s l : PI s -> PI (step retries s l).
 Proof.
-  intros P. unfold step. apply fire_pbars_PI. apply (PI_same _ _ (fire_cbars_pview _)).
+  intros P. unfold step. apply (PI_same _ _ (forget_pview _ _ _)). apply fire_pbars_PI. apply (PI_same _ _ (fire_cbars_pview _)).
   destruct l as [c|c pid pname th pd|c cname spch p answers|cs|c spchs|ns nt].
   - (* StartColl *)
     destruct (zmem _ _); [exact P|]. destruct (zlookup _ _); [exact P|]. destruct (pairing c) as [shards|]; [|exact P].
